@@ -889,10 +889,12 @@ class CSSStyleSheet(cssutils.stylesheets.StyleSheet):
                 self._cssRules.insert(index, rule)
 
         # post settings
+        moved = rule.parentStyleSheet is not self
         rule._parentStyleSheet = self
 
-        if rule.IMPORT_RULE == rule.type and not rule.hrefFound:
+        if rule.IMPORT_RULE == rule.type and not rule.hrefFound and moved:
             # try loading the imported sheet which has new relative href now
+            # (a rule that belonged to this sheet already has been tried)
             rule.href = rule.href
 
         return index
